@@ -10,4 +10,5 @@ func run(r *core.Run) {
 	r.Rule = "path stream: key paths built from a component alphabet (.., ., empty, ordinary, look-alikes such as '..a', '...', reserved names) with / and \\ separators, run through the real directory back end inside a nested sandbox; " +
 		"a case is non-trivial when the path has at least one separator or dot component; distinct by path bytes"
 	runPaths(r)
+	runDer(r)
 }
